@@ -14,7 +14,7 @@ package sqlittle
 //@ func (*db.Database).Schema
 //@   props C06 C10
 //@   trusted schema construction is specified under C10
-//@   modifies * -M:S_db_KeyCol hdr_valid hdr_ps hdr_cookie
+//@   modifies * -M:S_db_KeyCol hdr_valid hdr_ps hdr_cookie jr_pos peer_state
 //@   requires db != nil
 //@   requires [locked] lk_shared
 //@   trusted-ensures err == nil ==> r0 != nil
@@ -23,7 +23,7 @@ package sqlittle
 //@   props C06 C01
 //@   trusted row mapping is specified under C01 (pending)
 //@   may-panic
-//@   modifies * -M:S_db_KeyCol hdr_valid hdr_ps hdr_cookie
+//@   modifies * -M:S_db_KeyCol hdr_valid hdr_ps hdr_cookie jr_pos peer_state
 //@   requires [dbnn] db != nil
 //@   requires [snn] s != nil
 //@   requires [locked] lk_shared
@@ -32,7 +32,7 @@ package sqlittle
 //@   props C06 C01
 //@   trusted row mapping is specified under C01 (pending)
 //@   may-panic
-//@   modifies * -M:S_db_KeyCol hdr_valid hdr_ps hdr_cookie
+//@   modifies * -M:S_db_KeyCol hdr_valid hdr_ps hdr_cookie jr_pos peer_state
 //@   requires [dbnn] db != nil
 //@   requires [snn] s != nil
 //@   requires [locked] lk_shared
@@ -40,7 +40,7 @@ package sqlittle
 //@ func sqlittle.selectRowid
 //@   props C06 C04
 //@   trusted
-//@   modifies * -M:S_db_KeyCol hdr_valid hdr_ps hdr_cookie
+//@   modifies * -M:S_db_KeyCol hdr_valid hdr_ps hdr_cookie jr_pos peer_state
 //@   requires [dbnn] db != nil
 //@   requires [snn] s != nil
 //@   requires [locked] lk_shared
@@ -49,7 +49,7 @@ package sqlittle
 //@   props C06 C02
 //@   trusted
 //@   may-panic
-//@   modifies * -M:S_db_KeyCol hdr_valid hdr_ps hdr_cookie
+//@   modifies * -M:S_db_KeyCol hdr_valid hdr_ps hdr_cookie jr_pos peer_state
 //@   requires [dbnn] db != nil
 //@   requires [snn] schema != nil
 //@   requires [inn] index != nil
@@ -59,7 +59,7 @@ package sqlittle
 //@   props C06 C02
 //@   trusted
 //@   may-panic
-//@   modifies * -M:S_db_KeyCol hdr_valid hdr_ps hdr_cookie
+//@   modifies * -M:S_db_KeyCol hdr_valid hdr_ps hdr_cookie jr_pos peer_state
 //@   requires [dbnn] db != nil
 //@   requires [snn] schema != nil
 //@   requires [inn] index != nil
@@ -69,7 +69,7 @@ package sqlittle
 //@   props C06 C03
 //@   trusted
 //@   may-panic
-//@   modifies * -M:S_db_KeyCol hdr_valid hdr_ps hdr_cookie
+//@   modifies * -M:S_db_KeyCol hdr_valid hdr_ps hdr_cookie jr_pos peer_state
 //@   requires [dbnn] db != nil
 //@   requires [snn] schema != nil
 //@   requires [inn] index != nil
@@ -79,7 +79,7 @@ package sqlittle
 //@   props C06 C03
 //@   trusted
 //@   may-panic
-//@   modifies * -M:S_db_KeyCol hdr_valid hdr_ps hdr_cookie
+//@   modifies * -M:S_db_KeyCol hdr_valid hdr_ps hdr_cookie jr_pos peer_state
 //@   requires [dbnn] db != nil
 //@   requires [snn] schema != nil
 //@   requires [inn] index != nil
@@ -89,7 +89,7 @@ package sqlittle
 //@   props C06 C03
 //@   trusted
 //@   may-panic
-//@   modifies * -M:S_db_KeyCol hdr_valid hdr_ps hdr_cookie
+//@   modifies * -M:S_db_KeyCol hdr_valid hdr_ps hdr_cookie jr_pos peer_state
 //@   requires [dbnn] db != nil
 //@   requires [snn] s != nil
 //@   requires [locked] lk_shared
@@ -98,7 +98,7 @@ package sqlittle
 //@   props C06 C03
 //@   trusted
 //@   may-panic
-//@   modifies * -M:S_db_KeyCol hdr_valid hdr_ps hdr_cookie
+//@   modifies * -M:S_db_KeyCol hdr_valid hdr_ps hdr_cookie jr_pos peer_state
 //@   requires [dbnn] db != nil
 //@   requires [snn] s != nil
 //@   requires [locked] lk_shared
@@ -117,46 +117,46 @@ package sqlittle
 
 //@ func (*sqlittle.DB).SelectDone
 //@   props C06 C17
-//@   modifies * -M:S_db_KeyCol lk_shared lk_pending cc_now hdr_valid hdr_ps hdr_cookie
+//@   modifies * -M:S_db_KeyCol lk_shared lk_pending peer_state cc_now hdr_valid hdr_ps hdr_cookie jr_pos
 //@   requires db != nil && !lk_shared && !lk_pending
 //@   ensures [released] !lk_shared && !lk_pending
-//@   ensures [yield] peer_state >= 3 ==> r0 != nil
+//@   ensures [yield] peer_stable && old(peer_state) >= 3 ==> r0 != nil
 //@   ensures-on-panic [released] !lk_shared && !lk_pending
 
 //@ func (*sqlittle.DB).SelectRowid
 //@   props C06
-//@   modifies * -M:S_db_KeyCol lk_shared lk_pending cc_now hdr_valid hdr_ps hdr_cookie
+//@   modifies * -M:S_db_KeyCol lk_shared lk_pending peer_state cc_now hdr_valid hdr_ps hdr_cookie jr_pos
 //@   requires db != nil && !lk_shared && !lk_pending
 //@   ensures [released] !lk_shared && !lk_pending
-//@   ensures [yield] peer_state >= 3 ==> r1 != nil
+//@   ensures [yield] peer_stable && old(peer_state) >= 3 ==> r1 != nil
 
 //@ func (*sqlittle.DB).IndexedSelect
 //@   props C06
-//@   modifies * -M:S_db_KeyCol lk_shared lk_pending cc_now hdr_valid hdr_ps hdr_cookie
+//@   modifies * -M:S_db_KeyCol lk_shared lk_pending peer_state cc_now hdr_valid hdr_ps hdr_cookie jr_pos
 //@   requires db != nil && !lk_shared && !lk_pending
 //@   ensures [released] !lk_shared && !lk_pending
-//@   ensures [yield] peer_state >= 3 ==> r0 != nil
+//@   ensures [yield] peer_stable && old(peer_state) >= 3 ==> r0 != nil
 //@   ensures-on-panic [released] !lk_shared && !lk_pending
 
 //@ func (*sqlittle.DB).IndexedSelectEq
 //@   props C06
-//@   modifies * -M:S_db_KeyCol lk_shared lk_pending cc_now hdr_valid hdr_ps hdr_cookie
+//@   modifies * -M:S_db_KeyCol lk_shared lk_pending peer_state cc_now hdr_valid hdr_ps hdr_cookie jr_pos
 //@   requires db != nil && !lk_shared && !lk_pending
 //@   ensures [released] !lk_shared && !lk_pending
-//@   ensures [yield] peer_state >= 3 ==> r0 != nil
+//@   ensures [yield] peer_stable && old(peer_state) >= 3 ==> r0 != nil
 //@   ensures-on-panic [released] !lk_shared && !lk_pending
 
 //@ func (*sqlittle.DB).PKSelect
 //@   props C06
-//@   modifies * -M:S_db_KeyCol lk_shared lk_pending cc_now hdr_valid hdr_ps hdr_cookie
+//@   modifies * -M:S_db_KeyCol lk_shared lk_pending peer_state cc_now hdr_valid hdr_ps hdr_cookie jr_pos
 //@   requires db != nil && !lk_shared && !lk_pending
 //@   ensures [released] !lk_shared && !lk_pending
-//@   ensures [yield] peer_state >= 3 ==> r0 != nil
+//@   ensures [yield] peer_stable && old(peer_state) >= 3 ==> r0 != nil
 //@   ensures-on-panic [released] !lk_shared && !lk_pending
 
 //@ func (*sqlittle.DB).Columns
 //@   props C06
-//@   modifies * -M:S_db_KeyCol lk_shared lk_pending cc_now hdr_valid hdr_ps hdr_cookie
+//@   modifies * -M:S_db_KeyCol lk_shared lk_pending peer_state cc_now hdr_valid hdr_ps hdr_cookie jr_pos
 //@   requires db != nil && !lk_shared && !lk_pending
 //@   ensures [released] !lk_shared && !lk_pending
-//@   ensures [yield] peer_state >= 3 ==> r1 != nil
+//@   ensures [yield] peer_stable && old(peer_state) >= 3 ==> r1 != nil
